@@ -6,7 +6,9 @@
    case : <id> RT <hex src> <convs>
    out  : <id> N=<same|differs|rejected|printpanic|notclean|U> C=<...>
    case : <id> FMT2 <hex src> <convs>       (C03: format twice)
-   out  : <id> N=<hex of f(src)>|<hex of f(f(src))> C=<...>   or notclean / U *)
+   out  : <id> N=<hex of f(src)>|<hex of f(f(src))> C=<...>   or notclean / U
+   case : <id> TL <hex src> <convs>         (C02: the token sequence of the fragment theorem)
+   out  : <id> N=<type.hexlit,...> C=<the same>  | <id> N=notfrag C=notfrag | <id> N=notclean C=notclean *)
 let mk_conv (s : string) : numconv =
   let tbl = Hashtbl.create 16 in
   if s <> "-" then
@@ -81,10 +83,24 @@ let fmt2_line id src convs =
   else let conv = mk_conv convs in
     Printf.sprintf "%s N=%s C=%s" id (fmt2 conv false b) (fmt2 conv true b)
 
+(* body e of coq/model/TokPrint.v for a one-expression program in the fragment: what the formatter's output must lex to *)
+let tl_line id src convs =
+  let b = bytes_of_hex src in
+  let conv = mk_conv convs in
+  match front_parse conv false b with
+  | POk r when clean r ->
+    (match frag_tokens conv r.pr_tree with
+     | None -> id ^ " N=notfrag C=notfrag"
+     | Some ts ->
+       let t = String.concat "," (List.map (fun t -> Printf.sprintf "%s.%s" (string_of_z t.ttype) (hex_of_bytes t.tlit)) ts) in
+       Printf.sprintf "%s N=%s C=%s" id t t)
+  | _ -> id ^ " N=notclean C=notclean"
+
 let () = iter_lines (fun line ->
   match split_on ' ' line with
   | [id; "FRONT"; mode; src; convs] -> print_endline (front_line id mode src convs)
   | [id; "RT"; src; convs] -> print_endline (rt_line id src convs)
   | [id; "FMT2"; src; convs] -> print_endline (fmt2_line id src convs)
+  | [id; "TL"; src; convs] -> print_endline (tl_line id src convs)
   | id :: _ -> print_endline (id ^ " BADCASE")
   | [] -> ())
